@@ -10,12 +10,16 @@ PROJECT = dict(
     pure={'tuple': 'obj', 'hasattr': 'bool', 'set': 'obj', 'greedy_order': 'obj', 'variable_elimination_logspace': 'obj', 'list': 'obj',
           '.invert': 'obj', '.values': 'obj', 'type': 'obj'},
     requires=[],
+    # the scan over the cliques either returns (after one projection) or goes on without having projected anything
+    loops={1: dict(invariant=['ghost("n_site_final-projection-onto-the-requested-tuple") == 0'])},
     sites=[dict(func='.project', arg=0, name='final-projection-onto-the-requested-tuple',
                 spec='same(__arg, tuple(attrs__old) if type(attrs__old) is list else attrs__old)'),
            dict(func='variable_elimination_logspace', arg=2, name='normalised-to-the-model-total', spec='same(__arg, self.total)'),
            dict(func='.invert', arg=0, name='eliminates-exactly-the-other-attributes',
                 spec='same(__arg, tuple(attrs__old) if type(attrs__old) is list else attrs__old)')],
-    ensures={},
+    # whichever path answers, the value handed back went through exactly one `.project(<requested tuple>)`: a path that returns
+    # a stored table as it is would hand out that table's own axis order
+    ensures={'every-answer-is-a-projection-onto-the-requested-tuple': 'ghost("n_site_final-projection-onto-the-requested-tuple") == 1'},
 )
 FUNCTIONS = [('GraphicalModel.project', PROJECT, {}, '')]
 
